@@ -83,6 +83,18 @@ Definition py_slice {A} (l : list A) (a b : option Z) : list A :=
   let e := py_bound n b n in
   firstn (Z.to_nat (e - s)) (skipn (Z.to_nat s) l).
 
+(* l.pop(): the LAST element and the list without it; IndexError on an empty list *)
+Fixpoint py_pop_last {A} (l : list A) : option (A * list A) :=
+  match l with
+  | [] => None
+  | a :: t => match py_pop_last t with
+              | None => Some (a, [])
+              | Some (x, r) => Some (x, a :: r)
+              end
+  end.
+Definition py_pop {A} (l : list A) : res (A * list A) :=
+  match py_pop_last l with Some xr => Ok xr | None => Crash IndexError end.
+
 (* bool(l) for a list *)
 Definition truthy_list {A} (l : list A) : bool :=
   match l with [] => false | _ :: _ => true end.
